@@ -128,7 +128,7 @@ structure Facts where
   /-- the `k` of `len(ti)-k` in those two conditions (0 up to efcbde2, 1 since: the depth of the field) -/
   fieldDepthMinus : Nat
   /-- cfg.go `case selectorExpr`: `fieldCount(name, len(ti)-1) > 1` — another field of that name at the
-      depth of the field found — is reported as an ambiguous selector (since 43e97a5) -/
+      depth of the field found — is reported as an ambiguous selector (since f4dfaf4) -/
   fieldAmbiguityCheck : Bool
   /-- type.go `implements`: `… && !t.needsPtrFor(it)` — a method with a pointer receiver that is not
       promoted through an embedded pointer is not in the method set of a value (since 79ed061) -/
@@ -139,7 +139,7 @@ structure Facts where
   /-- cfg.go post-order `case typeSwitch`: the clause types are checked with `typeAssertionExpr` (since 5c3b0c5) -/
   tswitchCasesChecked : Bool
   /-- run.go `typeAssert`: the wrapper of an assertion to a host interface is made over the value the
-      interface holds (`genInterfaceWrapperValue(val.node, rtype, held)`, since ccca582) -/
+      interface holds (`genInterfaceWrapperValue(val.node, rtype, held)`, since bbd3913) -/
   assertHostWrapsHeld : Bool
   /-- use.go `getWrapper` (which wrapper struct a script value converted to a host interface gets, the
       composed ones of stdlib/wrapper-composed.go first): the methods a composed wrapper requires are
@@ -299,7 +299,7 @@ def fieldCountY (D : Decls) : Nat → Nat → String → Nat
   | 0, t, x => if (fieldIndex (fieldsOf D t) x 0).isSome then 1 else 0
   | d + 1, t, x => ((fieldsOf D t).map (fun f => if f.isEmb then fieldCountY D d f.typ x else 0)).sum
 
-/-- the second half of the ambiguity condition of the selector case (since 43e97a5) -/
+/-- the second half of the ambiguity condition of the selector case (since f4dfaf4) -/
 def fieldTieY (F : Facts) (D : Decls) (t : Nat) (x : String) (fh : FHit) : Bool :=
   F.fieldAmbiguityCheck && decide (fieldCountY D (fh.path.length - 1) t x > 1)
 
@@ -319,7 +319,7 @@ def methodSelY (F : Facts) (D : Decls) (t : Nat) (x : String) (mh : MHit) : Sel 
 
 /-- `case selectorExpr` for a struct operand followed by `matchSelectorMethod`:
     a field found by `lookupField` (path `ti`) is used unless `methodDepth` `d` satisfies
-    `0 ≤ d < len(ti)-k` (then the method is used) or `d == len(ti)-k` or, since 43e97a5,
+    `0 ≤ d < len(ti)-k` (then the method is used) or `d == len(ti)-k` or, since f4dfaf4,
     `fieldCount(name, len(ti)-1) > 1` ("ambiguous selector"); `k = F.fieldDepthMinus`. -/
 def selectY (F : Facts) (D : Decls) (t : Nat) (x : String) : Sel :=
   match lookupFieldY F D t x with
